@@ -32,13 +32,13 @@ func init() {
 		Run:   runR172,
 	})
 	core.Register(&core.Rule{
-		ID:    "R17.6",
-		Title: "custom-typeref registry is only touched through sync.Map",
-		Text:  "The package-level adapter registry is a sync.Map used only via Load/LoadOrStore/Store/Range, and adapter values are composite literals never stored to after construction.",
-		Props: []string{"C17"},
+		ID:      "R17.6",
+		Title:   "custom-typeref registry is only touched through sync.Map",
+		Text:    "The package-level adapter registry is a sync.Map used only via Load/LoadOrStore/Store/Range, and adapter values are composite literals never stored to after construction.",
+		Props:   []string{"C17"},
 		Modules: []string{"v2"},
-		Floor: map[string]int{"v2": 2},
-		Run:   runR176,
+		Floor:   map[string]int{"v2": 2},
+		Run:     runR176,
 	})
 }
 
@@ -520,7 +520,7 @@ func runR172(c *core.Ctx) {
 			}
 		}
 	}
-	nodeByID := map[int]interface{ }{}
+	nodeByID := map[int]interface{}{}
 	_ = nodeByID
 	idx := map[int][]int{}
 	for _, n := range nodes {
